@@ -25,6 +25,24 @@ DRIVER_MODULES = ['DataDict']
 
 RTOL = 1e-9
 BASES = 'ACGT'
+# every substring of 'ACGT' of length 2-4 (a membership test written `allele in 'ACGT'` accepts exactly these) ...
+SUBSTR = ['AC', 'CG', 'GT', 'ACG', 'CGT', 'ACGT']
+# ... and multi-character alleles that are not substrings, multi-allelic lists, '*', '.', symbolic alleles, IUPAC codes
+NONSUB = ['AT', 'TA', 'CA', 'GC', 'TTC', 'AAA', 'ACT', 'GTA', 'ACGTA', 'TACG']
+OTHER = ['A,C', 'T,G', 'AC,A', '*', '.', '<DEL>', '<INS>', '<NON_REF>', 'N', 'R']
+def nonsnp_lines():
+    """(REF, ALT) pairs that are NOT biallelic single-base SNPs, of every kind; present in every generated VCF"""
+    out = []
+    for x in SUBSTR:
+        out += [(x, x[0]), (x[0], x), (x, x[-1]), (x[-1], x)]              # deletions / insertions whose long allele is a substring of 'ACGT'
+    out += [('AC', 'CG'), ('ACG', 'CGT'), ('ac', 'a'), ('c', 'cg'), ('Gt', 'g')]
+    for x in NONSUB:
+        out += [(x, x[0]), (x[-1], x)]
+    out += [('CG', 'TA'), ('at', 'a')]
+    for x in OTHER:
+        out.append((BASES[len(out) % 4], x))
+    out += [('N', 'A'), ('*', 'A'), ('.', 'A'), ('a,c', 'g')]
+    return out
 CHROMS = ['chr1', 'chr_2', 'scaf.3', 'ctg_4.1_b', '2L', 'X_random.v2', 'NC_000001.11', 'a_b_c', 'un.known', '7']
 POPS = ['YRI', 'CEU', 'pop_3', 'East.1', 'w', 'P2']
 
@@ -84,8 +102,9 @@ def gen_dataset(rng, tier, kind='vcf', full=False, npop=None):
         flt = 'PASS'; aa = ref; aakey = 'AA'; pre = ''; post = ''
         if not full:
             u = rng.random()
-            if u < 0.06: alt = str(rng.choice(['AT', 'T,G', '<DEL>', '.', 'N', 'TTA', '*']))
-            elif u < 0.10: ref = str(rng.choice(['AT', 'N', 'GC']))
+            if u < 0.07: alt = str(rng.choice(SUBSTR + NONSUB + OTHER))
+            elif u < 0.12: ref = str(rng.choice(SUBSTR + NONSUB + ['N']))
+            elif u < 0.14: ref, alt = str(rng.choice(SUBSTR)), str(rng.choice(SUBSTR + NONSUB))
             elif u < 0.13: alt = ref                                  # REF == ALT (degenerate but accepted)
             if rng.random() < 0.15: ref = ref.lower()
             if rng.random() < 0.15: alt = alt.lower()
@@ -120,10 +139,20 @@ def gen_dataset(rng, tier, kind='vcf', full=False, npop=None):
             gts.append(al)
         sites.append(dict(chrom=chrom, pos=pos, ref=ref, alt=alt, filt=flt, aa=aa, aakey=aakey, pre=pre, post=post, gts=gts,
                           nodata=[False] * len(samples), dpstyle=None))
+    if not full and kind in ('vcf', 'dp'):
+        # deterministic block: non-SNP lines of every kind, fully called, PASS, AA = first base of REF, own positions:
+        # were one of them to enter the dictionary it would be a usable SNP and the total would exceed the number of SNP lines
+        for k, (r, a) in enumerate(nonsnp_lines()):
+            q = 0.5
+            gts = [[int(rng.random() < q), int(rng.random() < q)] for _ in samples]
+            r1 = r if rng.random() < 0.85 else r.lower()
+            a1 = a if rng.random() < 0.85 else a.lower()
+            sites.append(dict(chrom=chroms[k % nchr], pos=span + 1 + k, ref=r1, alt=a1, filt='PASS' if k % 3 else '.', aa=r.upper()[:1] if r[:1].upper() in BASES else 'A',
+                              aakey='AA', pre='', post='', gts=gts, nodata=[False] * len(samples), dpstyle=None, nonsnp=True))
     if not full and rng.random() < 0.35 and len(sites) > 2:              # a duplicated CHROM_POS (later line replaces)
         k = int(rng.integers(1, 3))
         for _ in range(k):
-            a, b = [int(x) for x in rng.choice(len(sites), size=2, replace=False)]
+            a, b = [int(x) for x in rng.choice(L, size=2, replace=False)]
             sites[b]['chrom'] = sites[a]['chrom']; sites[b]['pos'] = sites[a]['pos']
     if rng.random() < 0.7:
         sites.sort(key=lambda s: (chroms.index(s['chrom']), s['pos']))
@@ -692,6 +721,43 @@ def check_subsample(chk, ctx, ds, vcf, pop, pop_names_all, codes):
         else:
             kbad(chk, 'subsample', ds, impl_e, out, None, at)
 
+def is_snp_line(site, filt):
+    """the statement's 'biallelic SNP' for a VCF line: REF and ALT are each exactly one of A, C, G, T (any case), and the line passes the filter if asked"""
+    r, a = site['ref'].upper(), site['alt'].upper()
+    return len(r) == 1 and len(a) == 1 and r in BASES and a in BASES and not (filt and site['filt'] not in ('PASS', '.'))
+
+def check_lines(chk, ctx, ds, dd, filt, codes):
+    """line by line: exactly the biallelic single-base SNP lines enter the dictionary (L3), and the model's kept-line
+    predicate `siteKept` says the same (K).  Lines whose CHROM_POS is repeated are judged through the last kept one."""
+    keys = ['%s_%d' % (s['chrom'], s['pos']) for s in ds['sites']]
+    expect_in = {}
+    for k, s in zip(keys, ds['sites']):
+        expect_in[k] = expect_in.get(k, False) or is_snp_line(s, filt)
+    wrong = [(k, s) for k, s in zip(keys, ds['sites']) if (k in dd) != expect_in[k]]
+    nsub = sum(1 for s in ds['sites'] if (s['ref'].upper() in SUBSTR or s['alt'].upper() in SUBSTR))
+    chk.l3(('lines', filt, nsub > 0, any(',' in s['alt'] for s in ds['sites']), any(s['ref'] != s['ref'].upper() for s in ds['sites'])))
+    chk.stat('lines:non-snp', sum(1 for s in ds['sites'] if not is_snp_line(s, False)))
+    chk.stat('lines:substring-of-ACGT', nsub)
+    if wrong:
+        k, s = wrong[0]
+        kind = 'substring-of-ACGT' if (s['ref'].upper() in SUBSTR or s['alt'].upper() in SUBSTR) else 'other'
+        chk.fail('make_data_dict_vcf:line-kept:%s:%s' % ('non-snp-entered' if k in dd else 'snp-dropped', kind),
+                 'VCF line %s REF=%s ALT=%s FILTER=%s is %s the data dictionary (filter=%s): %d line(s) misjudged; every one of them changes the total of the spectrum'
+                 % (k, s['ref'], s['alt'], s['filt'], 'in' if k in dd else 'missing from', filt, len(wrong)),
+                 dict(kind=ds['kind'], dataset=ds, at=dict(stage='lines', key=k)))
+    if have_driver(ctx):
+        out = ask(ctx, 'kept %d %s' % (filt, sites_wire(ds, codes)))
+        if out.startswith('ok '):
+            bits = out[3:].strip()
+            mexp = {}
+            for k, b in zip(keys, bits):
+                mexp[k] = mexp.get(k, False) or b == '1'
+            ref_bits = ''.join('1' if is_snp_line(s, filt) else '0' for s in ds['sites'])
+            if bits == ref_bits and all((k in dd) == mexp[k] for k in keys): chk.k_ok('kept')
+            else: kbad(chk, 'kept', ds, ''.join('1' if k in dd else '0' for k in keys), bits, None, dict(stage='lines'))
+        else:
+            kbad(chk, 'kept', ds, None, out, None, dict(stage='lines'))
+
 def check_vcf_dataset(chk, ctx, ds):
     dadi = ctx['dadi']; M = dadi.Misc
     codes = Codes()
@@ -734,6 +800,7 @@ def check_vcf_dataset(chk, ctx, ds):
                 model_entries = me
             else:
                 kbad(chk, 'dd_vcf', ds, ie, out, None, dict(stage='parse'))
+        check_lines(chk, ctx, ds, dd, filt, codes)
         if present != pops:
             return
         entries_oracle = [od[k] for k in dd.keys() if k in od] if sorted(dd.keys()) == sorted(od.keys()) else list(od.values())
@@ -1085,7 +1152,7 @@ def run(chk, ctx):
     tier = ctx['tier']
     rng = common.Rng(ctx['seed'], 'C13')
     chk.rule = ('synthetic genotype matrices: 1-3 populations, 2-12 diploids each (2-7 with 3 populations), 4-27 (thorough: -59) lines on 1-3 chromosomes whose '
-                'names contain "_" and "."; per line: REF/ALT single bases, lower case, multi-character / symbolic / multi-allelic ALT, REF==ALT; FILTER PASS, ".", '
+                'names contain "_" and "."; per line: REF/ALT single bases, lower case, REF==ALT; non-SNP lines of every kind, a deterministic block of ~60 in EVERY VCF plus random ones: multi-character REF and/or ALT from all substrings of "ACGT" of length 2-4 and from non-substrings, multi-allelic ALT lists, "*", ".", symbolic and IUPAC alleles, lower case; FILTER PASS, ".", '
                 'failing; AA equal to REF, ALT, a third base, absent, ".", "N", "-", multi-character, with "|" suffix, lower case, under AA / AA_ensembl / AA_chimp, '
                 'other INFO fields around it; genotypes with per-line allele frequency and missing rate ("./.", half calls), "/" or "|", FORMAT GT / GT:DP / GT:AD:DP / ...; '
                 'samples absent from the popinfo file; shuffled sample order; repeated CHROM_POS; popinfo with/without header and comments. Rendered to VCF+popinfo and to the '
